@@ -137,6 +137,9 @@ type Conn struct {
 	OnWrite func(b []byte, to net.Addr)
 	// WriteErr, if set, is consulted first; a non-nil result fails the WriteTo.
 	WriteErr func(b []byte, to net.Addr) error
+	// OnWriteFail is called when a WriteTo fails for a reason of the connection's own (an
+	// expired write deadline the writer had set).
+	OnWriteFail func(b []byte, to net.Addr)
 	// OnRead is called when a datagram is handed to a reader (after the copy into its buffer).
 	OnRead func(d dgram, n int)
 	// OnIdle is called when a reader finds the queue empty and is about to block.
@@ -247,6 +250,9 @@ func (c *Conn) WriteTo(b []byte, to net.Addr) (int, error) {
 		return 0, errClosed("write")
 	}
 	if !c.writeDeadline.IsZero() && !time.Now().Before(c.writeDeadline) {
+		if c.OnWriteFail != nil {
+			c.OnWriteFail(b, to) // the scenario records it like an injected write error
+		}
 		return 0, &net.OpError{Op: "write", Net: "udp", Err: os.ErrDeadlineExceeded}
 	}
 	if c.WriteErr != nil {
